@@ -5,8 +5,10 @@
 (* Carrier: two rules RA, RB, each with a single reference attribute `one`    *)
 (* and a list reference attribute `many`.  A configuration registers a set of *)
 (* keys (each bound to a provider that records its own label) and gives some  *)
-(* attributes an RREL expression in the grammar.  For every reference slot    *)
-(* (rule, attribute) the module says which provider resolve_one_step uses.    *)
+(* attributes an RREL expression in the grammar (possibly on only one of two  *)
+(* assignments of the attribute).  Registrations come in a sequence on one    *)
+(* metamodel.  For every reference slot (rule, attribute) the module says     *)
+(* which provider resolve_one_step uses after each registration.              *)
 EXTENDS LoaderProvider, IOUtils, TLC, Json
 
 Rules == {"RA", "RB"}
@@ -19,18 +21,33 @@ ASSUME Precedence(Rules, Attrs)
 ASSUME \A e \in {"defs", "^pkgs*.defs"} : Registered([kind |-> "string", expr |-> e]) = GrammarRrel(e)
 ASSUME Registered([kind |-> "callable", expr |-> "p"]) = [kind |-> "callable", expr |-> "p"]
 
-\* the 128 configurations of the property: a focus slot, a subset of its four keys, grammar RREL on it or not
-Focused == UNION {{[focus |-> SlotName(s), keys |-> ks, rrel |-> IF g THEN {SlotName(s)} ELSE {}] :
-                      g \in BOOLEAN, ks \in SUBSET Range(KeyOrder(s[1], s[2]))} : s \in Slots}
-\* thorough: every subset of all nine keys x every set of slots with a grammar RREL
-Full == {[focus |-> "-", keys |-> ks, rrel |-> {SlotName(s) : s \in gs}] : ks \in SUBSET AllKeys, gs \in SUBSET Slots}
+SlotNames == {SlotName(x) : x \in Slots}
+SlotOf(n) == CHOOSE y \in Slots : SlotName(y) = n
+\* how the focus attribute is assigned in its rule: once without / with an RREL, or twice (plain then RREL,
+\* RREL then plain)
+Patterns == {<<FALSE>>, <<TRUE>>, <<FALSE, TRUE>>, <<TRUE, FALSE>>}
+
+\* A configuration: the assignments of every slot (occ), then a SEQUENCE of registrations on one metamodel:
+\* `prev` (all other keys, or nothing), `keys` (the registration under test; the providers of `falsy` are
+\* callables whose truth value is False), and finally {} (nothing registered any more).
+\* Focused: focus slot x pattern x subset of its four keys x falsy subset x prev  (4 * 4 * 81 * 2 = 2592)
+Focused == UNION {UNION {{[focus |-> SlotName(s), occ |-> [n \in SlotNames |-> IF n = SlotName(s) THEN p ELSE <<FALSE>>],
+                           keys |-> ks, falsy |-> fs, prev |-> pv] :
+                            p \in Patterns, fs \in SUBSET ks, pv \in {{}, AllKeys \ ks}}
+                         : ks \in SUBSET Range(KeyOrder(s[1], s[2]))} : s \in Slots}
+\* thorough: every subset of all nine keys x every set of slots with a grammar RREL (8192), all providers falsy
+\* in every second one
+Full == {[focus |-> "-", occ |-> [n \in SlotNames |-> <<SlotOf(n) \in gs>>], keys |-> ks,
+          falsy |-> IF Cardinality(ks) % 2 = 0 THEN ks ELSE {}, prev |-> {}] : ks \in SUBSET AllKeys, gs \in SUBSET Slots}
 
 Configs == IF IOEnv.VT_C32 = "full" THEN Full ELSE Focused
 MCDev   == IF IOEnv.VT_DEV = "" THEN {} ELSE {IOEnv.VT_DEV}
 
-Expected(c) == [s \in {SlotName(x) : x \in Slots} |->
-                  LET x == CHOOSE y \in Slots : SlotName(y) = s
-                  IN Provider(c.keys, x[1], x[2], s \in c.rrel)]
+ExpectedAt(c, table) == [n \in SlotNames |->
+                           Provider(table, SlotOf(n)[1], SlotOf(n)[2], HasGrammarRrel(c.occ[n]))]
+Regs(c) == <<c.prev, c.keys, {}>>
+\* the provider of every slot after each registration of the sequence
+Expected(c) == [i \in 1..3 |-> ExpectedAt(c, TableAfter(SubSeq(Regs(c), 1, i)))]
 
 \* registered RREL strings: what the table holds after register_scope_providers, per (expression)
 \* (+m: expressions make the provider a model loader as well: the files named by importURI attributes
@@ -43,6 +60,7 @@ VARIABLE c
 PInit == c \in Configs
 PNext == UNCHANGED c
 PSpec == PInit /\ [][PNext]_c
-Emit  == PrintT("CASE|" \o ToJson([focus |-> c.focus, keys |-> c.keys, rrel |-> c.rrel, expected |-> Expected(c)]))
+Emit  == PrintT("CASE|" \o ToJson([focus |-> c.focus, occ |-> c.occ, keys |-> c.keys, falsy |-> c.falsy,
+                                        prev |-> c.prev, expected |-> Expected(c)]))
 ASSUME \A e \in Exprs : PrintT("STRING|" \o ToJson(StringCase(e)))
 =============================================================================
